@@ -72,7 +72,7 @@ class Gen:
             P = dict(vo=vo, rs=rng.choice([0.0, _r(_lg(rng, 1e-3, 0.3), 3)]))
             self.vest[name] = vo
         elif cls == "PLoad":
-            P = dict(pwr=_r(_lg(rng, 1e-5, 0.3) * av, 4), pwrs=rng.choice([0.0, _r(_lg(rng, 1e-7, 1e-4) * av, 3)]),
+            P = dict(pwr=_r(_lg(rng, 1e-5, 0.3) * av, 4), pwrs=rng.choice([0.0, _r(_lg(rng, 1e-7, 1e-4) * av, 3), _r(_lg(rng, 1e-4, 1e-2) * av, 3)]),
                      rt=rng.choice([0.0, _r(_lg(rng, 1, 100), 3)]), loss=rng.random() < 0.2)
         elif cls == "ILoad":
             P = dict(ii=_r(_lg(rng, 1e-6, 0.3), 4), iis=rng.choice([0.0, _r(_lg(rng, 1e-7, 1e-4), 3)]),
@@ -150,6 +150,8 @@ class Gen:
 
     def phase_value(self, cls, rng=None):
         rng = rng or self.rng
+        if cls != "RLoad" and rng.random() < 0.12:
+            return 0.0          # a load explicitly configured to draw nothing in a phase
         if cls == "PLoad":
             return _r(_lg(rng, 1e-5, 2.0), 4)
         if cls == "ILoad":
